@@ -361,7 +361,7 @@ func fileReadAux(L *LState, file *lFile, idx int) int {
 				switch opt {
 				case 'n':
 					var v LNumber
-					_, err = fmt.Fscanf(file.reader, LNumberScanFormat, &v)
+					_, err = fmt.Fscan(file.reader, &v) // like C's %lf: white space before the numeral includes newlines
 					if err == io.EOF {
 						L.Push(LNil)
 						goto normalreturn
